@@ -51,3 +51,77 @@ M("lay310-offset-mult", "C01", L310, "offset_mult = 2 if sys.version_info >= (3,
 M("lay310-tryblock-order", "C01", L310, '            ("b_handler", ctypes.c_int),\n', '            ("b_handlerx", ctypes.c_int),\n', "LAY-310", accept_analysis_error=True)
 T("twin-ver-reformat", "C01", LL, "    if sys.version_info < (3, 11):\n        if code[offs] == op[\"YIELD_FROM\"]", "    if not sys.version_info >= (3, 11):\n        if code[offs] == op[\"YIELD_FROM\"]")
 T("twin-lay311-comment", "C01", L311, '("f_code", ctypes.c_size_t),  # PyCodeObject*\n            ("previous", ctypes.c_size_t),  # _PyInterpreterFrame*', '("f_code", ctypes.c_void_p),\n            ("previous", ctypes.c_void_p),')
+
+# ---------------------------------------------------------------- C01 (cont.): OPC-3, OPC-3b, INT, EXI-1, JOIN-1
+M("opc3-async-base-6", "C01", LL, "skip_insns = 7 if is_async else 1", "skip_insns = 6 if is_async else 1", "OPC-3")
+M("opc3-sync-base-2", "C01", LL, "skip_insns = 7 if is_async else 1", "skip_insns = 7 if is_async else 2", "OPC-3")
+M("opc3-endsend-boundary", "C01", LL, 'if sys.version_info >= (3, 12, 0, "beta", 1):', 'if sys.version_info >= (3, 13, 0, "beta", 1):', "OPC-3")
+M("opc3-39-idx2", "C01", LL, "store_to = describe_assignment_target(insns, idx + 1)", "store_to = describe_assignment_target(insns, idx + 2)", "OPC-3")
+M("opc3b-nop-deleted", "C01", LL, '            if insns[idx + skip_insns].opname == "NOP":\n', '            if insns[idx + skip_insns].opname == "NOP_":\n', ["OPC-3b", "OPC-4"])
+M("opc3b-nop-312-only", "C01", LL, '            if insns[idx + skip_insns].opname == "NOP":', '            if sys.version_info >= (3, 12) and insns[idx + skip_insns].opname == "NOP":', "OPC-3b")
+M("opc3b-cleanup-throw-313", "C01", LL, '                    sys.version_info >= (3, 12)\n                    and insns[idx + skip_insns].opname == "CLEANUP_THROW"',
+  '                    sys.version_info >= (3, 13)\n                    and insns[idx + skip_insns].opname == "CLEANUP_THROW"', "OPC-3b")
+M("opc3b-extarg-sync-only", "C01", LL, 'while is_async and insns[idx + skip_insns - 5].opname == "EXTENDED_ARG":', 'while not is_async and insns[idx + skip_insns - 5].opname == "EXTENDED_ARG":', "OPC-3b")
+M("int-311-lt", "C01", L311, "            if start <= lasti_before <= end:", "            if start <= lasti_before < end:", "INT")
+M("int-311-walk-lt", "C01", L311, "        if start <= current <= end:", "        if start < current <= end:", "INT")
+M("int-producer-exclusive", "C01", LL, "end = start + length - 2  # Present as inclusive, not exclusive", "end = start + length", "INT")
+M("exi1-insert-front", "C01", LL, "        ret.append(replace(with_block_info[exiting.cleanup_offset], is_exiting=True))", "        ret.insert(0, replace(with_block_info[exiting.cleanup_offset], is_exiting=True))", ["EXI-1", "JOIN-1"])
+M("exi1-referents-before", "C01", LL, "    exiting = currently_exiting_context(frame)\n    if exiting is not None:\n        ret.append(Context(obj=None, is_async=exiting.is_async, is_exiting=True))\n    return ret",
+  "    exiting = currently_exiting_context(frame)\n    if exiting is not None:\n        ret.append(Context(obj=None, is_async=exiting.is_async, is_exiting=True))\n    ret.reverse()\n    return ret", "EXI-1")
+M("join1-level-off", "C01", LL, "obj=frame_details.stack[block.level - 1].__self__,", "obj=frame_details.stack[block.level].__self__,", "JOIN-1")
+M("join1-reversed", "C01", LL, "block for block in frame_details.blocks if block.handler in with_block_info", "block for block in reversed(frame_details.blocks) if block.handler in with_block_info", "JOIN-1")
+M("join1-exiting-unconditional", "C01", LL, "    if exiting is not None:\n        ret.append(replace(with_block_info", "    if exiting:\n        ret.append(replace(with_block_info", "JOIN-1")
+
+# ---------------------------------------------------------------- C02: OPC-1, EXI-2
+M("f1-reverted", "C02", LL, '''        else:
+            # If the frame is running (not suspended), lasti might rest
+            # on an inline CACHE entry of the SEND (3.12+)
+            while code[offs] == op["CACHE"] and offs >= 2:
+                offs -= 2
+''', "", "OPC-1")
+M("opc1-call-loop-deleted", "C02", LL, '        while offs and code[offs] == op["CACHE"]:\n            offs -= 2\n        if code[offs : offs + 2] != bytes([op["CALL"], 2]):',
+  '        if code[offs : offs + 2] != bytes([op["CALL"], 2]):', "OPC-1")
+M("opc1-precall-loop-deleted", "C02", LL, '            while offs > 4 and code[offs] == op["CACHE"]:\n                offs -= 2\n', '', "OPC-1")
+M("opc1-yield-path-loop-deleted", "C02", LL, '            # SEND can have a CACHE after it in 3.12\n            while code[offs] == op["CACHE"] and offs >= 2:\n                offs -= 2\n', '', "OPC-1")
+M("opc1-loop-or", "C02", LL, '        else:\n            # If the frame is running (not suspended), lasti might rest\n            # on an inline CACHE entry of the SEND (3.12+)\n            while code[offs] == op["CACHE"] and offs >= 2:',
+  '        else:\n            # If the frame is running (not suspended), lasti might rest\n            # on an inline CACHE entry of the SEND (3.12+)\n            while code[offs] != op["CACHE"] and offs >= 2:', "OPC-1")
+M("exi2-obj-first", "C02", LL, "            ret[-1].obj = args.locals[args.args[0]]", "            ret[0].obj = args.locals[args.args[0]]", "EXI-2")
+M("exi2-test-first", "C02", LL, "    if ret and ret[-1].is_exiting and next_inner is not None:", "    if ret and ret[0].is_exiting and next_inner is not None:", "EXI-2")
+M("exi2-arg-last", "C02", LL, "            ret[-1].obj = args.locals[args.args[0]]", "            ret[-1].obj = args.locals[args.args[-1]]", "EXI-2")
+M("exi2-format-first", "C02", "_types.py", "        if not (self.contexts and self.contexts[-1].is_exiting):\n            linetext = self.linetext", "        if not (self.contexts and self.contexts[0].is_exiting):\n            linetext = self.linetext", "EXI-2")
+T("twin-opc1-helper", "C02", LL, '''        else:
+            # If the frame is running (not suspended), lasti might rest
+            # on an inline CACHE entry of the SEND (3.12+)
+            while code[offs] == op["CACHE"] and offs >= 2:
+                offs -= 2
+''', '''        else:
+            def skip_caches() -> None:
+                nonlocal offs
+                while code[offs] == op["CACHE"] and offs >= 2:
+                    offs -= 2
+            skip_caches()
+''')
+T("twin-opc1-unconditional", "C02", LL, '''            is_async = True
+        else:
+            # If the frame is running (not suspended), lasti might rest
+            # on an inline CACHE entry of the SEND (3.12+)
+            while code[offs] == op["CACHE"] and offs >= 2:
+                offs -= 2
+''', '''            is_async = True
+        while code[offs] == op["CACHE"] and offs >= 2:
+            offs -= 2
+''')
+
+# ---------------------------------------------------------------- C08: OPC-2, LINE-1, FALL-1
+M("n1-reverted", "C08", LL, 'elif insn.opname in ("PRECALL", "CACHE", "PUSH_NULL"):', 'elif insn.opname in ("PRECALL", "CACHE"):', "OPC-2")
+M("opc2-load-fast-check", "C08", LL, '                "LOAD_FAST_CHECK",\n', '', "OPC-2")
+M("opc2-unpack-ex", "C08", LL, 'elif insn.opname == "UNPACK_EX":', 'elif insn.opname == "UNPACK_EX_":', "OPC-2")
+M("opc2-call-39", "C08", LL, 'elif insn.opname in ("CALL_FUNCTION", "CALL_METHOD", "CALL"):', 'elif insn.opname in ("CALL_FUNCTION", "CALL"):', "OPC-2")
+M("opc2-store-attr-raises", "C08", LL, '''            elif insn.opname == "LOAD_CONST":
+                stack.append(insn.argrepr)''', '''            elif insn.opname == "LOAD_CONST":
+                raise ValueError("no")''', "OPC-2")
+M("line1-after", "C08", LL, "        if insn.starts_line is not None:\n            current_line = insn.starts_line\n        if insn.opname in (\"SETUP_WITH\"", "        if insn.opname in (\"SETUP_WITH\"", "LINE-1")
+M("line1-start-line-none", "C08", LL, "                varname=store_to,\n                start_line=current_line,\n            )\n        elif", "                varname=store_to,\n                start_line=insn.offset,\n            )\n        elif", "LINE-1")
+M("fall1-overwrites", "C08", LL, "        if info.obj is not None and info.varname is None:", "        if info.obj is not None:", "FALL-1")
+M("fall1-by-eq", "C08", LL, "ret[idx] = replace(info, varname=locals_by_id.get(id(info.obj)))", "ret[idx] = replace(info, varname=locals_by_id.get(info.obj))", "FALL-1")
+M("c08-opc3-async-base", "C08", LL, "skip_insns = 7 if is_async else 1", "skip_insns = 8 if is_async else 1", "OPC-3")
